@@ -177,20 +177,20 @@ func RunTraces(c *core.Check, n, steps int) {
 	}
 	total := 0
 	for t := 0; t < n; t++ {
-		init := "empty"
-		if t%2 == 1 {
-			init = "parsed"
-		}
+		init := []string{"empty", "parsed", "oneline", "emptyblk"}[t%4]
 		s, err := newSession(init)
 		if err != nil {
 			c.Broken("%v", err)
 			return
 		}
 		d := &driver{s: s, rng: rng, nextID: 4, parent: map[int]int{}, attrID: map[int]map[string]int{0: {}}, maxDepth: 3}
-		if init == "parsed" {
+		if init != "empty" {
 			d.parent[2] = 0
 			d.attrID[0]["a"] = 1
 			d.attrID[2] = map[string]int{"b": 3}
+			if init == "emptyblk" {
+				d.attrID[2] = map[string]int{}
+			}
 		}
 		emit(tEvent{Op: "reset", Init: init})
 		var histDesc []string
@@ -205,7 +205,15 @@ func RunTraces(c *core.Check, n, steps int) {
 				blocks = append(blocks, id)
 			}
 			e := tEvent{}
-			switch op := rng.Intn(10); {
+			switch op := rng.Intn(12); {
+			case op == 10:
+				if rng.Intn(3) == 0 {
+					e = tEvent{Op: "Clear", B: b}
+				} else {
+					e = tEvent{Op: "RemoveAttr", B: b, Name: "b"}
+				}
+			case op == 11:
+				e = tEvent{Op: "Decorate", B: b, Name: []string{"newline", "comment"}[rng.Intn(2)]}
 			case op <= 2:
 				v := tVals[rng.Intn(len(tVals))]
 				e = tEvent{Op: "SetAttr", B: b, Name: tNames[rng.Intn(3)], VK: v[0].(string), VN: v[1].(int)}
@@ -229,6 +237,17 @@ func RunTraces(c *core.Check, n, steps int) {
 			case op == 9 && len(blocks) > 0:
 				e = tEvent{Op: "SetLabels", H: blocks[rng.Intn(len(blocks))], Labels: tLabels[rng.Intn(3)]}
 			default:
+				e = tEvent{Op: "RemoveAttr", B: b, Name: "c"}
+			}
+			// the exhaustive stage reports the known root cause "append into a body that starts on its
+			// brace line"; the long histories steer around it so that they keep exploring
+			if avoid, p := func() (bool, bool) {
+				var a bool
+				_, pn := core.Guard(func() {
+					a = s.appendsIntoBraceLine(Op{Op: e.Op, B: e.B, Name: e.Name, H: e.H})
+				})
+				return a, pn
+			}(); avoid && !p {
 				e = tEvent{Op: "RemoveAttr", B: b, Name: "c"}
 			}
 			// bookkeeping the driver needs to name items (ids are allocated like the model's)
@@ -258,6 +277,13 @@ func RunTraces(c *core.Check, n, steps int) {
 			case "RemoveBlock":
 				if d.parent[e.H] == b {
 					d.parent[e.H] = -1
+				}
+			case "Clear":
+				d.attrID[b] = map[string]int{}
+				for id, p := range d.parent {
+					if p == b {
+						d.parent[id] = -1
+					}
 				}
 			}
 			o := Op{Op: e.Op, B: e.B, Name: e.Name, Name2: e.Name2, VK: e.VK, VN: e.VN, Labels: e.Labels, H: e.H}
